@@ -73,6 +73,24 @@ def relayout(args, kwargs, how):
     return [conv(a) for a in args], {k: conv(v) for k, v in kwargs.items()}
 
 
+def close(a, b, rtol=1e-9):
+    """values equal up to rounding (reductions may legitimately run in another order for another memory layout)"""
+    try:
+        if isinstance(a, (tuple, list)) and isinstance(b, (tuple, list)):
+            return len(a) == len(b) and all(close(x, y, rtol) for x, y in zip(a, b))
+        if isinstance(a, dict) and isinstance(b, dict):
+            return set(a) == set(b) and all(close(a[k], b[k], rtol) for k in a)
+        a_, b_ = numpy.asarray(a), numpy.asarray(b)
+        if a_.dtype == object or b_.dtype == object or a_.dtype.kind in "USO":
+            return True
+        if a_.shape != b_.shape:
+            return False
+        sc_ = float(numpy.nanmax(numpy.abs(b_))) if b_.size and numpy.isfinite(numpy.nanmax(numpy.abs(b_))) else 1.0
+        return bool(numpy.allclose(a_, b_, rtol=rtol, atol=rtol * max(sc_, 1e-300), equal_nan=True))
+    except Exception:
+        return True
+
+
 def observe(f, args, kwargs):
     """returns dict of observed effects for one recipe"""
     obs = {"writes": False, "alias": False, "rng": False, "unrepeatable": False, "error": None}
@@ -188,6 +206,20 @@ def property_checks(seed, deep):
                     out.append(("result shares memory with an argument (%s arguments): %s" % (how, name), 1.0, 0.0))
                 if o2["unrepeatable"]:
                     out.append(("equal arguments, different results (%s arguments): %s" % (how, name), 1.0, 0.0))
+                # ... and the value is that of the row-major call
+                import contextlib, io
+                with warnings.catch_warnings(), contextlib.redirect_stdout(io.StringIO()):
+                    warnings.simplefilter("ignore")
+                    try:
+                        if base is None:
+                            base = copy.deepcopy(f(*[clone(a) if isinstance(a, numpy.ndarray) else copy.deepcopy(a) for a in args],
+                                                   **{k: (clone(v) if isinstance(v, numpy.ndarray) else copy.deepcopy(v)) for k, v in kwargs.items()}))
+                        rv = f(*[clone(a) if isinstance(a, numpy.ndarray) else copy.deepcopy(a) for a in a_],
+                               **{k: (clone(v) if isinstance(v, numpy.ndarray) else copy.deepcopy(v)) for k, v in k_.items()})
+                        if not close(rv, base):
+                            out.append(("the result depends on the memory layout of the arguments (%s vs row-major): %s" % (how, name), 1.0, 0.0))
+                    except Exception:
+                        pass
     # batch clauses
     from aotools import fouriertransform as ftm, interpolation as itp
     from aotools.image_processing import centroiders as cen
